@@ -102,7 +102,7 @@ pub fn scripts(nodes: usize, all_pairs: bool) -> Vec<Script> {
     }
     // two operations: both on the primary (same session), and one per node
     let pairs: Vec<(&str, &str)> = if !all_pairs {
-        vec![("set k v1", "set k v2"), ("set k v1", "remove k"), ("increment c", "increment c"), ("set k v1", "increment c"), ("set-safe k 1 s1", "set-safe k 1 s2"), ("remove k", "set k v2")]
+        vec![("set k v1", "set k v2"), ("set k v1", "set k v1"), ("set k v1", "remove k"), ("increment c", "increment c"), ("set k v1", "increment c"), ("set-safe k 1 s1", "set-safe k 1 s2"), ("remove k", "set k v2")]
     } else {
         let mut p = vec![];
         for a in menu.iter() {
